@@ -420,6 +420,9 @@ func (n *network) startEndpoint(i int, e *LEndpoint, clientCA *ca) *epState {
 		cert = issue(nil, label, []string{host}, now.Add(-24*time.Hour), now.Add(365*24*time.Hour), false)
 	case "expired":
 		cert = issue(issuer, label, []string{host}, now.Add(-48*time.Hour), now.Add(-1*time.Hour), false)
+	case "just_expired":
+		// lapsed a few seconds ago (any tolerance in the client's notion of time lets it through)
+		cert = issue(issuer, label, []string{host}, now.Add(-48*time.Hour), now.Add(-3*time.Second), false)
 	case "not_yet":
 		cert = issue(issuer, label, []string{host}, now.Add(24*time.Hour), now.Add(48*time.Hour), false)
 	case "wrong_name":
